@@ -161,6 +161,10 @@ def exec_stmt(env: Env, st):
         elif k == "wrap":  # ["wrap", name, arrname, const]
             _, name, an, const = st
             env.obj[name] = mg.tensor(env.obj[an], copy=False, constant=bool(const))
+        elif k == "tview":  # ["tview", name, tname, kind]: a tensor that is a view of another tensor
+            _, name, tn, vk = st
+            t = env.obj[tn]
+            env.obj[name] = t[: max(1, N // 2)] if vk == 0 else (t[::-1] if vk == 1 else t[...])
         elif k == "un":  # ["un", name, op, x]
             _, name, op, x = st
             env.obj[name] = UN[op](_operand(env, x))
@@ -493,6 +497,7 @@ class Oracle:
         self.pin = [] if pin else None  # no-address-re-use mode: arrays that entered an op are never freed
         self.ops = _IdMap()  # Operation -> dict(born=stmt index, guarded=bool)
         self.cleared = _IdMap()  # Tensor -> stmt index of the last clear
+        self.any_cleared = False
         self.known = {}  # id(arr) -> (weakref, orig, descriptor)   arrays that entered an op
         self.fails = []  # (class, descriptor, detail)
         self.seen_fail = set()
@@ -619,6 +624,7 @@ class Oracle:
                 self._learn(a, "operand")
 
     def mark_cleared(self, t, when):
+        self.any_cleared = True
         seen = set()
         stack = [t]
         while stack:
@@ -668,6 +674,13 @@ class Oracle:
                 still = [(r, d) for r, d in stuck if r() is not None and not r().flags.writeable]
                 if len(still) < len(stuck):
                     self.cyclic_garbage += 1
+                    if not self.any_cleared:
+                        # ... unless nothing was ever cleared in this history: the reference cycles of the unchanged
+                        # code arise from re-using tensors after backward()/clear_graph() (C09's recorded defect);
+                        # without that, dropping the last reference must free the graph, and with it the locks
+                        for r, d in stuck:
+                            if (r, d) not in still:
+                                self._fail("stuck-readonly-until-gc", d, when, st)
                 for r, d in still:
                     self._fail("stuck-readonly", d, when, st)
                 if not still:
@@ -854,6 +867,10 @@ def gen_history(rng: random.Random, maxlen: int, profile: str = "plain"):
             emit(["out", n, rng.choice(list(OUTOPS)), operand(), operand(), tgt], into)
             if n:
                 tens.append(n)
+        elif r < 0.61 and tens:
+            n = new_t()
+            emit(["tview", n, rng.choice(tens), rng.choice([0, 1, 2])], into)
+            tens.append(n)
         elif r < 0.64 and tens:
             emit(["set", rng.choice(tens), rng.choice([0, 1, 2]), operand()], into)
         elif r < 0.69 and tens:
@@ -1120,6 +1137,8 @@ def minimise_violation(hist, f):
 EXPECT = {
     "locked-array-writeable": "every input/output/base/out= target of an op in a live, uncleared graph is read-only",
     "stuck-readonly": "an array no live op refers to has its original (writeable) flag back",
+    "stuck-readonly-until-gc": "in a history without backward()/clear_graph(), dropping the last reference to the results frees "
+                               "the graph by reference counting and gives the arrays their original flag back (no cyclic-GC pass needed)",
     "readonly-became-writeable": "an array that was read-only before it entered an op is never made writeable",
 }
 
